@@ -898,3 +898,163 @@ def comment_injection_cases(snippets=REREAD_SNIPPETS, pairs=True):
                     a, b = cuts[i], cuts[j]
                     cases.append(Case(src0[:a] + "/*a*/" + src0[a:b] + " // b\n" + src0[b:], "F-comment-pair", note=sn[:30]))
     return cases
+
+
+# ------------------------------------------------------------------ C12: documentation families (expected docs by construction)
+
+def docs_cases(seed, n):
+    """files built line by line; for each declaration / spec / field the generator chooses what stands in front
+    of it {attached comment group, detached group (blank line), trailing comment on the previous line, nothing}
+    and therefore knows the documentation the property demands.  expected = list of (node kind, [comment texts])
+    in source order for every node that carries docs."""
+    rng = random.Random(seed ^ 0xd0c5)
+    cases = []
+    for ci in range(n):
+        lines = []
+        expected = []
+        cid = [0]
+
+        def comment_group(indent=""):
+            k = 1 + rng.randrange(3)
+            out = []
+            texts = []
+            if rng.random() < 0.3:
+                cid[0] += 1
+                if rng.random() < 0.5:
+                    t = "/* g%d\n%s   more */" % (cid[0], indent)
+                else:
+                    t = "/* g%d */" % cid[0]
+                for ln in t.split("\n"):
+                    out.append(indent + ln if ln is t.split("\n")[0] else ln)
+                texts.append(t)
+                return out, texts
+            for _ in range(k):
+                cid[0] += 1
+                t = "// c%d é" % cid[0]
+                out.append(indent + t)
+                texts.append(t)
+            return out, texts
+
+        def before(indent="", allow_trailing=True):
+            """emit what precedes a documented item; returns the expected docs"""
+            opts = ["attached", "detached", "none", "none"]
+            if allow_trailing and lines and lines[-1].strip() and "//" not in lines[-1] and "/*" not in lines[-1] \
+                    and "*/" not in lines[-1]:
+                opts.append("trailing")
+                opts.append("trailing+attached")
+            o = rng.choice(opts)
+            if o.startswith("trailing"):
+                cid[0] += 1
+                lines[-1] = lines[-1] + " // t%d" % cid[0]
+                if o == "trailing":
+                    return []
+                o = "attached"
+            if o == "attached":
+                ls, texts = comment_group(indent)
+                lines.extend(ls)
+                return texts
+            if o == "detached":
+                ls, texts = comment_group(indent)
+                lines.extend(ls)
+                lines.append("")
+                if rng.random() < 0.3:
+                    lines.append("")
+                return []
+            return []
+
+        for _ in range(rng.randrange(3)):
+            lines.append("")
+        expected.append(("File", before(allow_trailing=False)))
+        lines.append("package p")
+        if rng.random() < 0.5:
+            lines.append("")
+        nd = 1 + rng.randrange(5)
+        for di in range(nd):
+            kind = rng.choice(["func", "var", "const", "type", "vargroup", "typegroup", "struct", "funcbody"])
+            name = "n%d_%d" % (ci, di)
+            if kind in ("func", "funcbody"):
+                d = before()
+                expected.append(("FuncDecl", d))
+                if kind == "func":
+                    lines.append("func %s() {}" % name)
+                else:
+                    lines.append("func %s() {" % name)
+                    lines.append("\t// inside %s" % name)
+                    lines.append("\tx := 1 /* in */")
+                    if rng.random() < 0.5:
+                        lines.append("\t// last inside")
+                    lines.append("}")
+            elif kind in ("var", "const", "type"):
+                d = before()
+                # a single-spec declaration carries its docs on the spec
+                expected.append(({"var": "DeclVar", "const": "DeclConst", "type": "DeclType"}[kind], []))
+                expected.append(({"var": "VarSpec", "const": "ConstSpec", "type": "TypeSpec"}[kind], d))
+                lines.append({"var": "var %s int", "const": "const %s = 1", "type": "type %s int"}[kind] % name)
+            elif kind in ("vargroup", "typegroup"):
+                d = before()
+                expected.append(("DeclVar" if kind == "vargroup" else "DeclType", d))
+                lines.append("var (" if kind == "vargroup" else "type (")
+                for si in range(1 + rng.randrange(3)):
+                    sd = before("\t")
+                    expected.append(("VarSpec" if kind == "vargroup" else "TypeSpec", sd))
+                    lines.append(("\t%s_%d int" if kind == "vargroup" else "\t%s_%d []int") % (name, si))
+                lines.append(")")
+            else:  # struct with documented fields and line-end comments
+                d = before()
+                expected.append(("DeclType", []))
+                expected.append(("TypeSpec", d))
+                lines.append("type %s struct {" % name)
+                for fi in range(1 + rng.randrange(3)):
+                    fd = before("\t", allow_trailing=False)
+                    ln = "\tf%d int" % fi
+                    if rng.random() < 0.4:
+                        cid[0] += 1
+                        ln += " // e%d" % cid[0]
+                        fd = fd + ["// e%d" % cid[0]]
+                    expected.append(("Field", fd))
+                    lines.append(ln)
+                lines.append("}")
+            if rng.random() < 0.4:
+                lines.append("")
+        src = "\n".join(lines) + ("\n" if rng.random() < 0.8 else "")
+        cases.append(Case(src, "F-docs", expected=expected))
+    return cases
+
+
+_DOC_TAGS = ("File", "FuncDecl", "DeclVar", "DeclConst", "DeclType", "VarSpec", "ConstSpec", "TypeSpec", "Field")
+
+
+def docs_of_tree(tree):
+    out = []
+    todo = [tree]
+    while todo:
+        n = todo.pop()
+        if n.tag in _DOC_TAGS and n.docs:
+            text = " ".join(n.docs)
+            inner = text[2:-1]          # strip "#[" and "]"
+            out.append((n.tag, [t for _, t in parse_comments(inner)]))
+        todo.extend(reversed(n.kids))
+    return out
+
+
+def docs_ok(c, line):
+    """C12 oracle: the docs of every documented node are what the generator placed directly above it"""
+    if not line.startswith("OK "):
+        return "generated declaration sequence rejected: %s" % line[:80]
+    have = [(t, d) for t, d in docs_of_tree(tree_of(line)) if not (t == "Field" and False)]
+    want = c.expected
+    # fields of parameter lists etc. also carry (empty) docs: compare only the documented kinds the generator emits
+    have = [(t, d) for t, d in have if t != "Field" or True]
+    if len(have) != len(want):
+        return "documented nodes: %d in the tree, %d generated" % (len(have), len(want))
+    for i, ((t1, d1), (t2, d2)) in enumerate(zip(have, want)):
+        if t1 != t2:
+            return "node %d is %s, generated %s" % (i, t1, t2)
+        if d1 != d2:
+            # KF-21: line_info reports lines 1 and 2 as the same line, so a comment that ends on line 1 is
+            # judged adjacent to a token on line 3 (and, with a trailing comment, line 1 vs line 2 tokens)
+            first = c.src.split("\n")[0] if c.src else ""
+            on_line1 = any(t.split("\n")[-1] in first for t in d1 + d2) or \
+                any(c.src.find(t) >= 0 and c.src.count("\n", 0, c.src.find(t) + len(t)) == 0 for t in d1 + d2)
+            return "%sdocs of %s #%d: tree %r, expected %r" % ("KF-21: " if on_line1 else "", t1, i, d1, d2)
+    return None
